@@ -10,6 +10,12 @@
 //! tx) are fed through the node's real `ChainTracker` so that the channel's `ChainMonitor` supplies
 //! the chain state.
 //!
+//! A third of the channels are driven through the protocol handler instead (vls-protocol-signer:
+//! `NewChannel`, `SetupChannel`, `SignRemoteCommitmentTx2`, `ValidateCommitmentTx2`, `RevokeCommitmentTx`,
+//! `ValidateRevocation`, protocol versions 4, 5 and 6): the same generated requests, converted to wire
+//! fields (msat amounts with sub-satoshi remainders, LOCAL/REMOTE sides, channel_type feature bits), the
+//! handler's answer judged by the same reference predicate.
+//!
 //! Oracle: a reference predicate written from docs/policy-controls.md and BOLT-3 weights, evaluated
 //! in u128, one-directional (Ok => allowed), slack at rounding boundaries (see `judge_commitment`).
 //! The reverse direction (refused although allowed) is only counted.
@@ -38,8 +44,17 @@ use lightning_signer::policy::simple_validator::SimplePolicy;
 use lightning_signer::tx::tx::HTLCInfo2;
 use lightning_signer::txoo::proof::TxoProof;
 use lightning_signer::util::test_utils::make_block;
+use lightning_signer::bitcoin::BlockHash;
+use lightning_signer::node::Node;
+use lightning_signer::tx::tx::CommitmentInfo2;
 use serde_json::{json, Value};
+use std::sync::Arc;
 use std::time::Instant;
+use vls_protocol::model::{self, Basepoints, Bip32KeyVersion, BitcoinSignature, DisclosedSecret, Htlc, PubKey};
+use vls_protocol::msgs::{self, Message as Wire};
+use vls_protocol::serde_bolt::{Array, Octets};
+use vls_protocol_signer::approver::PositiveApprover;
+use vls_protocol_signer::handler::{ChannelHandler, Error as HandlerError, Handler, InitHandler, RootHandler};
 use vls_verif::oracle;
 use vls_verif::report::{self, finish, run_sharded, FinishSpec};
 use vls_verif::rng::fnv_str;
@@ -1336,6 +1351,138 @@ fn norm_msg(m: &str) -> String {
 }
 
 // ---------------------------------------------------------------------------------------------
+// Protocol-handler entry (vls-protocol-signer): the same requests as wire messages
+// ---------------------------------------------------------------------------------------------
+
+fn build_root(node: &Arc<Node>, version: u32) -> Result<RootHandler, String> {
+    let mut init = InitHandler::new(0, node.clone(), Arc::new(PositiveApprover()), version);
+    init.handle(Wire::HsmdInit(msgs::HsmdInit {
+        key_version: Bip32KeyVersion { pubkey_version: 0x043587CF, privkey_version: 0x04358394 },
+        chain_params: BlockHash::all_zeros(),
+        encryption_key: None,
+        dev_privkey: None,
+        dev_bip32_seed: None,
+        dev_channel_secrets: None,
+        dev_channel_secrets_shaseed: None,
+        hsm_wire_min_version: 2,
+        hsm_wire_max_version: version,
+    }))
+    .map_err(|e| format!("hsmd init: {:?}", e))?;
+    Ok(init.into())
+}
+
+fn build_channel_handler(node: &Arc<Node>, version: u32, peer: [u8; 33], dbid: u64) -> Result<ChannelHandler, String> {
+    Ok(build_root(node, version)?.for_new_client(1, PubKey(peer), dbid))
+}
+
+/// the refusal text of a handler error (the signer's Status message where there is one)
+fn herr(e: &HandlerError) -> String {
+    match e {
+        HandlerError::Signing(s) | HandlerError::Temporary(s) => s.message().to_string(),
+        other => format!("protocol error: {:?}", other),
+    }
+}
+
+/// One channel-level message through a handler built for the occasion.
+/// Ok(Ok(reply)) / Ok(Err(refusal text)) / Err(panic text)
+fn handle_on_channel(
+    node: &Arc<Node>,
+    version: u32,
+    peer: [u8; 33],
+    dbid: u64,
+    msg: Wire,
+) -> Result<Result<Box<dyn msgs::SerBolt>, String>, String> {
+    report::catch(|| {
+        let h = build_channel_handler(node, version, peer, dbid)?;
+        h.handle(msg).map_err(|e| herr(&e))
+    })
+}
+
+/// count `handler.<name>.ok|refused|panic`
+fn count_handler<T>(r: &mut Report, name: &str, version: u32, res: &Result<Result<T, String>, String>) {
+    let what = match res {
+        Ok(Ok(_)) => "ok",
+        Ok(Err(_)) => "refused",
+        Err(_) => "panic",
+    };
+    r.count(&format!("handler.{}.{}", name, what));
+    r.count(&format!("handler.requests.protocol_version_{}", version));
+}
+
+/// BOLT-9 feature vector (big-endian: feature bit i is bit i%8 of byte len-1-i/8) of the channel type,
+/// as CLN sends it: even bits, static_remotekey (12) with both anchor variants (20, 22)
+fn channel_type_wire(rng: &mut Rng, t: CType) -> Vec<u8> {
+    let bits: &[usize] = match t {
+        CType::Legacy => &[],
+        CType::Static => &[12],
+        CType::Anchors => &[12, 20],
+        CType::AnchorsZeroFee => {
+            if rng.bool() {
+                &[12, 22]
+            } else {
+                &[12, 20, 22]
+            }
+        }
+    };
+    let min_len = bits.iter().map(|b| b / 8 + 1).max().unwrap_or(0);
+    // sometimes padded with leading zero bytes
+    let len = if rng.chance(1, 3) { min_len.max(4) } else { min_len };
+    let mut v = vec![0u8; len];
+    for b in bits {
+        v[len - 1 - b / 8] |= 1 << (b % 8);
+    }
+    v
+}
+
+/// HTLCs on the wire: msat amounts (value_sat * 1000 + a remainder below one satoshi, which BOLT-3
+/// rounds away) and sides from the signer's point of view: what the broadcaster of a counterparty
+/// commitment offers is REMOTE, what the broadcaster of a holder commitment offers is LOCAL.
+/// None if an amount does not fit the field.
+fn htlcs_wire(rng: &mut Rng, r: &mut Report, side: Side, c: &Content) -> Option<Array<Htlc>> {
+    let (offered_side, received_side) = match side {
+        Side::Counterparty => (Htlc::REMOTE, Htlc::LOCAL),
+        Side::Holder => (Htlc::LOCAL, Htlc::REMOTE),
+    };
+    let mut v = vec![];
+    for (list, wire_side) in [(&c.offered, offered_side), (&c.received, received_side)] {
+        for h in list.iter() {
+            let rem = if rng.chance(1, 5) { 0 } else { rng.below(1000) };
+            let amount = h.value_sat.checked_mul(1000)?.checked_add(rem)?;
+            if rem > 0 {
+                r.count("handler.htlc_with_msat_remainder");
+            }
+            v.push(Htlc { side: wire_side, amount, payment_hash: model::Sha256(h.hash), ctlv_expiry: h.cltv_expiry });
+        }
+    }
+    // the order on the wire is the node's business
+    if v.len() > 1 && rng.bool() {
+        let k = rng.usize(v.len());
+        v.rotate_left(k);
+    }
+    Some(Array(v))
+}
+
+fn to_bsig(sig: &Signature, ty: EcdsaSighashType) -> BitcoinSignature {
+    BitcoinSignature { signature: model::Signature(sig.serialize_compact()), sighash: ty as u8 }
+}
+
+/// what the signer holds as the pending holder commitment (used to tell, under protocol version 4 where
+/// validation and revocation are one message, which of the two refused)
+fn pending_holder(node: &Arc<Node>, id: &ChannelId) -> Option<(u64, Option<CommitmentInfo2>)> {
+    match report::catch(|| {
+        node.with_channel(id, |chan| {
+            Ok((
+                chan.enforcement_state.next_holder_commit_num,
+                chan.enforcement_state.next_holder_commit_info.as_ref().map(|(i, _)| i.clone()),
+            ))
+        })
+    }) {
+        Ok(Ok(x)) => Some(x),
+        _ => None,
+    }
+}
+
+// ---------------------------------------------------------------------------------------------
 // One world
 // ---------------------------------------------------------------------------------------------
 
@@ -1352,6 +1499,10 @@ struct ChanGhost {
     cp_last: Option<(u64, Content)>,
     holder_last: Option<(u64, Content)>,
     cp_revoked_next: u64,
+    /// Some(protocol version): this channel is driven through the protocol handler
+    via: Option<u32>,
+    peer: [u8; 33],
+    dbid: u64,
 }
 
 struct Ctx<'a> {
@@ -1368,6 +1519,11 @@ enum Outcome {
 
 fn run_world(ctx: &Ctx, rng: &mut Rng, r: &mut Report, extreme: bool) {
     let secp = Secp256k1::new();
+    // choices of the protocol-handler entry: a stream of their own, so that the generated worlds and
+    // requests are the same whichever entry carries them
+    let mut hrng = Rng::new(
+        ctx.cli.seed.wrapping_mul(0x9E37_79B9_7F4A_7C15) ^ ((ctx.shard as u64) << 40) ^ ctx.world_ix.wrapping_mul(0xD6E8_FEB8_6659_FD93) ^ 0xC05,
+    );
     let mut cfg = WorldCfg::regtest(rng.bytes::<32>());
     let (policy, filter) = gen_policy(rng, &cfg.policy, extreme);
     let onchain = rng.chance(2, 5);
@@ -1440,22 +1596,81 @@ fn run_world(ctx: &Ctx, rng: &mut Rng, r: &mut Report, extreme: bool) {
         peer[1..].copy_from_slice(&rng.bytes::<32>());
         let node = world.node.clone();
         let dbid = ci + 1;
-        let id = match report::catch(|| node.new_channel(dbid, &peer, &node)) {
-            Ok(Ok((id, _))) => id,
-            other => {
-                r.inconclusive(&format!("harness: new_channel failed: {:?}", other.map(|x| x.map(|_| ()).map_err(|e| e.message().to_string()))));
-                return;
+        // a third of the channels live behind the protocol handler (versions 4, 5, 6)
+        let via: Option<u32> = if hrng.chance(1, 3) { Some(4 + hrng.below(3) as u32) } else { None };
+        let id = match via {
+            None => match report::catch(|| node.new_channel(dbid, &peer, &node)) {
+                Ok(Ok((id, _))) => id,
+                other => {
+                    r.inconclusive(&format!("harness: new_channel failed: {:?}", other.map(|x| x.map(|_| ()).map_err(|e| e.message().to_string()))));
+                    return;
+                }
+            },
+            Some(v) => {
+                r.count("handler.channels");
+                let res = report::catch(|| {
+                    let root = build_root(&node, v)?;
+                    root.handle(Wire::NewChannel(msgs::NewChannel { peer_id: PubKey(peer), dbid })).map(|_| ()).map_err(|e| herr(&e))
+                });
+                count_handler(r, "NewChannel", v, &res);
+                match res {
+                    Ok(Ok(())) => ChannelId::new_from_peer_id_and_oid(&peer, dbid),
+                    other => {
+                        r.inconclusive(&format!("harness: NewChannel through the protocol handler failed: {:?}", other));
+                        return;
+                    }
+                }
             }
         };
         let breaches = judge_setup(&p, &s);
         let enabled_bad: Vec<&SetupBreach> = breaches.iter().filter(|b| !b.downgraded).collect();
         r.eval(1);
-        let res = report::catch(|| {
-            node.setup_channel(id.clone(), None, setup.clone(), &lightning_signer::bitcoin::bip32::DerivationPath::master())
-        });
+        let setup_entry = match via {
+            None => "Node::setup_channel".to_string(),
+            Some(v) => format!("protocol handler (version {}): SetupChannel", v),
+        };
+        let res: Result<Result<(), String>, String> = match via {
+            None => report::catch(|| {
+                node.setup_channel(id.clone(), None, setup.clone(), &lightning_signer::bitcoin::bip32::DerivationPath::master())
+                    .map(|_| ())
+                    .map_err(|e| e.message().to_string())
+            }),
+            Some(v) => {
+                let cpp = &setup.counterparty_points;
+                let msg = Wire::SetupChannel(msgs::SetupChannel {
+                    is_outbound: s.is_outbound,
+                    channel_value: s.channel_value_sat,
+                    push_value: s.push_value_msat,
+                    funding_txid: funding_outpoint.txid,
+                    funding_txout: funding_outpoint.vout as u16,
+                    to_self_delay: s.holder_selected_delay as u16,
+                    local_shutdown_script: Octets(vec![]),
+                    local_shutdown_wallet_index: None,
+                    remote_basepoints: Basepoints {
+                        revocation: PubKey(cpp.revocation_basepoint.0.serialize()),
+                        payment: PubKey(cpp.payment_point.serialize()),
+                        htlc: PubKey(cpp.htlc_basepoint.0.serialize()),
+                        delayed_payment: PubKey(cpp.delayed_payment_basepoint.0.serialize()),
+                    },
+                    remote_funding_pubkey: PubKey(cpp.funding_pubkey.serialize()),
+                    remote_to_self_delay: s.counterparty_selected_delay as u16,
+                    remote_shutdown_script: Octets(vec![]),
+                    channel_type: Octets(channel_type_wire(&mut hrng, s.ctype)),
+                });
+                let res = handle_on_channel(&node, v, peer, dbid, msg).map(|x| x.map(|_| ()));
+                count_handler(r, "SetupChannel", v, &res);
+                if !enabled_bad.is_empty() {
+                    r.count("handler.SetupChannel.bad_requests");
+                    if matches!(res, Ok(Err(_))) {
+                        r.count("handler.SetupChannel.bad_refused");
+                    }
+                }
+                res
+            }
+        };
         let outcome = match res {
-            Ok(Ok(_)) => Outcome::Accepted,
-            Ok(Err(e)) => Outcome::Refused(e.message().to_string()),
+            Ok(Ok(())) => Outcome::Accepted,
+            Ok(Err(e)) => Outcome::Refused(e),
             Err(pmsg) => Outcome::Panicked(pmsg),
         };
         for b in breaches.iter() {
@@ -1463,7 +1678,7 @@ fn run_world(ctx: &Ctx, rng: &mut Rng, r: &mut Report, extreme: bool) {
         }
         let setup_detail = |extra: Value| -> Value {
             json!({
-                "entry_point": "Node::setup_channel",
+                "entry_point": setup_entry,
                 "seed": ctx.cli.seed, "shard": ctx.shard, "world": ctx.world_ix, "channel_index": ci,
                 "policy": p.to_json(), "setup": s.to_json(),
                 "funding_outpoint": format!("{}:{}", funding_outpoint.txid, funding_outpoint.vout),
@@ -1471,7 +1686,8 @@ fn run_world(ctx: &Ctx, rng: &mut Rng, r: &mut Report, extreme: bool) {
             })
         };
         let dh = format!(
-            "setup:{}:{}:{}:{}:{}",
+            "setup:{}:{}:{}:{}:{}:{}",
+            via.is_some(),
             onchain,
             s.ctype.name(),
             breaches.iter().map(|b| format!("{}{}", b.key, b.downgraded)).collect::<Vec<_>>().join(","),
@@ -1505,6 +1721,9 @@ fn run_world(ctx: &Ctx, rng: &mut Rng, r: &mut Report, extreme: bool) {
                     cp_last: None,
                     holder_last: None,
                     cp_revoked_next: 0,
+                    via,
+                    peer,
+                    dbid,
                 });
             }
             Outcome::Refused(msg) => {
@@ -1520,16 +1739,33 @@ fn run_world(ctx: &Ctx, rng: &mut Rng, r: &mut Report, extreme: bool) {
                 // a refused channel must not be usable: a commitment request on it must fail
                 let point = cp.commitment_point(&secp, 0);
                 let v = s.channel_value_sat;
-                let probe = report::catch(|| {
-                    node.with_channel(&id, |chan| {
-                        chan.sign_counterparty_commitment_tx_phase2(&point, 0, 1000, v.saturating_sub(1000), 0, vec![], vec![])
-                    })
-                });
+                let probe: Result<Result<(), String>, String> = match via {
+                    None => report::catch(|| {
+                        node.with_channel(&id, |chan| {
+                            chan.sign_counterparty_commitment_tx_phase2(&point, 0, 1000, v.saturating_sub(1000), 0, vec![], vec![])
+                        })
+                        .map(|_| ())
+                        .map_err(|e| e.message().to_string())
+                    }),
+                    Some(ver) => {
+                        let m = Wire::SignRemoteCommitmentTx2(msgs::SignRemoteCommitmentTx2 {
+                            remote_per_commitment_point: PubKey(point.serialize()),
+                            commitment_number: 0,
+                            feerate: 1000,
+                            to_local_value_sat: v.saturating_sub(1000),
+                            to_remote_value_sat: 0,
+                            htlcs: Array(vec![]),
+                        });
+                        let res = handle_on_channel(&node, ver, peer, dbid, m).map(|x| x.map(|_| ()));
+                        count_handler(r, "SignRemoteCommitmentTx2.probe_after_refused_setup", ver, &res);
+                        res
+                    }
+                };
                 r.count("setup.refused.probe_sign");
                 match probe {
                     Ok(Ok(_)) => r.violation(
                         "c05:commitment-signed-on-channel-whose-setup-was-refused",
-                        setup_detail(json!({"setup_result": msg, "probe": "sign_counterparty_commitment_tx_phase2(0) returned Ok"})),
+                        setup_detail(json!({"setup_result": msg, "probe": if via.is_some() { "SignRemoteCommitmentTx2(0) through the protocol handler returned a signature" } else { "sign_counterparty_commitment_tx_phase2(0) returned Ok" }})),
                     ),
                     Ok(Err(_)) => r.count("setup.refused.probe_sign.refused"),
                     Err(pm) => {
@@ -1719,28 +1955,78 @@ fn run_world(ctx: &Ctx, rng: &mut Rng, r: &mut Report, extreme: bool) {
 
         // ---- the request
         r.eval(1);
+        // through the protocol handler on the channels that live behind it, unless the message cannot
+        // carry the request (an HTLC amount that does not fit the msat field)
+        let (peer, dbid) = (chans[gi].peer, chans[gi].dbid);
+        let wire: Option<(u32, Array<Htlc>)> = match chans[gi].via {
+            None => None,
+            Some(v) => match htlcs_wire(&mut hrng, r, side, &content) {
+                Some(h) => Some((v, h)),
+                None => {
+                    r.count("handler.request_not_expressible_in_msat.sent_directly");
+                    None
+                }
+            },
+        };
+        let via = wire.as_ref().map(|(v, _)| *v);
+        let entry_name = match (via, side) {
+            (None, _) => side.name().to_string(),
+            (Some(v), Side::Counterparty) => format!("protocol handler (version {}): SignRemoteCommitmentTx2", v),
+            (Some(v), Side::Holder) => format!("protocol handler (version {}): ValidateCommitmentTx2", v),
+        };
+        if via.is_some() {
+            r.count(&format!("handler.{}.requests", side.short()));
+            if !enabled_bad.is_empty() {
+                r.count(&format!("handler.{}.bad_requests", side.short()));
+            }
+        }
+        // protocol version 4: a validated holder commitment whose predecessor the same message failed to revoke
+        let mut v4_revoke_refused = false;
         let outcome = {
             let g = &chans[gi];
             match side {
                 Side::Counterparty => {
                     let point = g.cp.commitment_point(&secp, n);
                     let c = content.clone();
-                    let res = report::catch(|| {
-                        node.with_channel(&id, |chan| {
-                            chan.sign_counterparty_commitment_tx_phase2(
-                                &point,
-                                n,
-                                c.feerate_per_kw,
-                                c.to_holder_sat,
-                                c.to_counterparty_sat,
-                                to_info2(&c.offered),
-                                to_info2(&c.received),
-                            )
-                        })
-                    });
+                    let res: Result<Result<(), String>, String> = match wire {
+                        None => report::catch(|| {
+                            node.with_channel(&id, |chan| {
+                                chan.sign_counterparty_commitment_tx_phase2(
+                                    &point,
+                                    n,
+                                    c.feerate_per_kw,
+                                    c.to_holder_sat,
+                                    c.to_counterparty_sat,
+                                    to_info2(&c.offered),
+                                    to_info2(&c.received),
+                                )
+                            })
+                            .map(|_| ())
+                            .map_err(|e| e.message().to_string())
+                        }),
+                        Some((v, htlcs)) => {
+                            let msg = Wire::SignRemoteCommitmentTx2(msgs::SignRemoteCommitmentTx2 {
+                                remote_per_commitment_point: PubKey(point.serialize()),
+                                commitment_number: n,
+                                feerate: c.feerate_per_kw,
+                                to_local_value_sat: c.to_holder_sat,
+                                to_remote_value_sat: c.to_counterparty_sat,
+                                htlcs,
+                            });
+                            let res = handle_on_channel(&node, v, peer, dbid, msg).map(|x| {
+                                x.map(|reply| {
+                                    if reply.as_any().downcast_ref::<msgs::SignCommitmentTxWithHtlcsReply>().is_none() {
+                                        r.count("handler.SignRemoteCommitmentTx2.unexpected_reply_type");
+                                    }
+                                })
+                            });
+                            count_handler(r, "SignRemoteCommitmentTx2", v, &res);
+                            res
+                        }
+                    };
                     match res {
-                        Ok(Ok(_)) => Outcome::Accepted,
-                        Ok(Err(e)) => Outcome::Refused(e.message().to_string()),
+                        Ok(Ok(())) => Outcome::Accepted,
+                        Ok(Err(e)) => Outcome::Refused(e),
                         Err(pm) => Outcome::Panicked(pm),
                     }
                 }
@@ -1773,23 +2059,82 @@ fn run_world(ctx: &Ctx, rng: &mut Rng, r: &mut Report, extreme: bool) {
                             (dummy_sig(&secp), vec![dummy_sig(&secp); c.n_htlcs() as usize])
                         }
                     };
-                    let res = report::catch(|| {
-                        node.with_channel(&id, |chan| {
-                            chan.validate_holder_commitment_tx_phase2(
-                                n,
-                                c.feerate_per_kw,
-                                c.to_holder_sat,
-                                c.to_counterparty_sat,
-                                to_info2(&c.offered),
-                                to_info2(&c.received),
-                                &sig,
-                                &hsigs,
-                            )
-                        })
-                    });
+                    let res: Result<Result<(), String>, String> = match wire {
+                        None => report::catch(|| {
+                            node.with_channel(&id, |chan| {
+                                chan.validate_holder_commitment_tx_phase2(
+                                    n,
+                                    c.feerate_per_kw,
+                                    c.to_holder_sat,
+                                    c.to_counterparty_sat,
+                                    to_info2(&c.offered),
+                                    to_info2(&c.received),
+                                    &sig,
+                                    &hsigs,
+                                )
+                            })
+                            .map_err(|e| e.message().to_string())
+                        }),
+                        Some((v, htlcs)) => {
+                            let hty = if g.setup.ctype.anchors() { EcdsaSighashType::SinglePlusAnyoneCanPay } else { EcdsaSighashType::All };
+                            let msg = Wire::ValidateCommitmentTx2(msgs::ValidateCommitmentTx2 {
+                                commitment_number: n,
+                                feerate: c.feerate_per_kw,
+                                to_local_value_sat: c.to_holder_sat,
+                                to_remote_value_sat: c.to_counterparty_sat,
+                                htlcs,
+                                signature: to_bsig(&sig, EcdsaSighashType::All),
+                                htlc_signatures: Array(hsigs.iter().map(|s| to_bsig(s, hty)).collect()),
+                            });
+                            let before = if v < msgs::PROTOCOL_VERSION_REVOKE { pending_holder(&node, &id) } else { None };
+                            let res = handle_on_channel(&node, v, peer, dbid, msg).map(|x| {
+                                x.map(|reply| {
+                                    if reply.as_any().downcast_ref::<msgs::ValidateCommitmentTxReply>().is_none() {
+                                        r.count("handler.ValidateCommitmentTx2.unexpected_reply_type");
+                                    }
+                                })
+                            });
+                            count_handler(r, "ValidateCommitmentTx2", v, &res);
+                            match res {
+                                Ok(Err(e)) if v < msgs::PROTOCOL_VERSION_REVOKE => {
+                                    // the old protocol validates and revokes in one message: if the signer now holds a new
+                                    // pending holder commitment n, it was the validation that passed and the revocation
+                                    // that refused (what the direct entry shows as Ok followed by a refused revoke)
+                                    let after = pending_holder(&node, &id);
+                                    match (before, after) {
+                                        (Some((_, b_info)), Some((a_num, a_info))) if a_num == n && a_info.is_some() && a_info != b_info => {
+                                            r.count("handler.ValidateCommitmentTx2.version_4.validated_then_revocation_refused");
+                                            v4_revoke_refused = true;
+                                            Ok(Ok(()))
+                                        }
+                                        _ => {
+                                            if e.contains("get_per_commitment_point") && n == next + 1 {
+                                                r.count("handler.ValidateCommitmentTx2.lookahead_refused_for_the_reply_point");
+                                            }
+                                            Ok(Err(e))
+                                        }
+                                    }
+                                }
+                                Ok(Err(e)) => {
+                                    if e.contains("get_per_commitment_point") && n == next + 1 {
+                                        // a commitment one ahead of the next: the direct entry validates it (without
+                                        // storing it); the handler goes on to fetch the point n + 1 for its reply, which
+                                        // the signer does not hand out yet.  Counted as refused, not judged.
+                                        r.count("handler.ValidateCommitmentTx2.lookahead_refused_for_the_reply_point");
+                                    }
+                                    if e.contains("activate_initial_commitment") {
+                                        // versions 5+: a repeated commitment 0 passes the validation but not the activation
+                                        r.count("handler.ValidateCommitmentTx2.refused_by_activate_initial_commitment");
+                                    }
+                                    Ok(Err(e))
+                                }
+                                other => other,
+                            }
+                        }
+                    };
                     match res {
                         Ok(Ok(())) => Outcome::Accepted,
-                        Ok(Err(e)) => Outcome::Refused(e.message().to_string()),
+                        Ok(Err(e)) => Outcome::Refused(e),
                         Err(pm) => Outcome::Panicked(pm),
                     }
                 }
@@ -1806,7 +2151,7 @@ fn run_world(ctx: &Ctx, rng: &mut Rng, r: &mut Report, extreme: bool) {
         let detail = |why: &str, result: &str| -> Value {
             let g = &chans[gi];
             json!({
-                "entry_point": side.name(),
+                "entry_point": entry_name,
                 "seed": ctx.cli.seed, "shard": ctx.shard, "world": ctx.world_ix, "op_index": op, "profile": ctx.cli.profile,
                 "policy": p.to_json(), "setup": g.setup.to_json(),
                 "chain": {"height": chain.height, "funding_in_a_block": chain.funding_confirmed, "funding_spend_in_a_block": chain.close_seen},
@@ -1827,8 +2172,9 @@ fn run_world(ctx: &Ctx, rng: &mut Rng, r: &mut Report, extreme: bool) {
             Outcome::Panicked(_) => "panic",
         };
         r.distinct_hash(fnv_str(&format!(
-            "{}:{}:{}:{}:{}:{}:{}:{:?}:{}",
+            "{}:{}:{}:{}:{}:{}:{}:{}:{:?}:{}",
             side.short(),
+            via.is_some(),
             onchain,
             s.ctype.name(),
             n_class,
@@ -1845,6 +2191,16 @@ fn run_world(ctx: &Ctx, rng: &mut Rng, r: &mut Report, extreme: bool) {
                 r.count(&format!("{}.accepted.{}", side.short(), n_class));
                 if content.n_htlcs() > 0 {
                     r.count(&format!("{}.accepted.with_htlcs", side.short()));
+                }
+                if via.is_some() {
+                    r.count(&format!("handler.{}.accepted", side.short()));
+                    r.count(&format!("handler.{}.accepted.{}", side.short(), n_class));
+                    if content.n_htlcs() > 0 {
+                        r.count(&format!("handler.{}.accepted.with_htlcs", side.short()));
+                    }
+                    if down_mask != 0 {
+                        r.count(&format!("handler.{}.accepted.downgraded_bad", side.short()));
+                    }
                 }
                 if p.onchain && n > 0 && is_new {
                     r.count("onchain.new_commitment_accepted_after_funding_confirmed");
@@ -1898,7 +2254,20 @@ fn run_world(ctx: &Ctx, rng: &mut Rng, r: &mut Report, extreme: bool) {
                         while g.cp_revoked_next < n {
                             let k = g.cp_revoked_next;
                             let secret = g.cp.commitment_secret(k);
-                            let res = report::catch(|| node.with_channel(&id, |chan| chan.validate_counterparty_revocation(k, &secret)));
+                            let res: Result<Result<(), String>, String> = match g.via {
+                                None => report::catch(|| {
+                                    node.with_channel(&id, |chan| chan.validate_counterparty_revocation(k, &secret)).map_err(|e| e.message().to_string())
+                                }),
+                                Some(v) => {
+                                    let msg = Wire::ValidateRevocation(msgs::ValidateRevocation {
+                                        commitment_number: k,
+                                        commitment_secret: DisclosedSecret(secret.secret_bytes()),
+                                    });
+                                    let res = handle_on_channel(&node, v, peer, dbid, msg).map(|x| x.map(|_| ()));
+                                    count_handler(r, "ValidateRevocation", v, &res);
+                                    res
+                                }
+                            };
                             match res {
                                 Ok(Ok(())) => {
                                     r.count("progress.counterparty_revocation.ok");
@@ -1922,10 +2291,44 @@ fn run_world(ctx: &Ctx, rng: &mut Rng, r: &mut Report, extreme: bool) {
                             g.holder_accepted_max = Some(n);
                         }
                         g.holder_last = Some((n, content.clone()));
-                        let res = report::catch(|| node.with_channel(&id, |chan| chan.revoke_previous_holder_commitment(n)));
+                        let res: Result<Result<(), String>, String> = match via {
+                            None => report::catch(|| {
+                                node.with_channel(&id, |chan| chan.revoke_previous_holder_commitment(n)).map(|_| ()).map_err(|e| e.message().to_string())
+                            }),
+                            // the old protocol revoked the predecessor in the same message
+                            Some(v) if v < msgs::PROTOCOL_VERSION_REVOKE => {
+                                if v4_revoke_refused {
+                                    Ok(Err("revocation refused inside ValidateCommitmentTx2".to_string()))
+                                } else {
+                                    r.count("handler.ValidateCommitmentTx2.version_4.revoked_in_the_same_message");
+                                    Ok(Ok(()))
+                                }
+                            }
+                            // the newer protocol: commitment 0 was activated by the validation message, later ones
+                            // need RevokeCommitmentTx(n - 1)
+                            Some(_) if n == 0 => {
+                                r.count("handler.ValidateCommitmentTx2.activated_initial_commitment");
+                                Ok(Ok(()))
+                            }
+                            Some(v) => {
+                                let msg = Wire::RevokeCommitmentTx(msgs::RevokeCommitmentTx { commitment_number: n - 1 });
+                                let res = handle_on_channel(&node, v, peer, dbid, msg).map(|x| {
+                                    x.map(|reply| {
+                                        if reply.as_any().downcast_ref::<msgs::RevokeCommitmentTxReply>().is_none() {
+                                            r.count("handler.RevokeCommitmentTx.unexpected_reply_type");
+                                        }
+                                    })
+                                });
+                                count_handler(r, "RevokeCommitmentTx", v, &res);
+                                res
+                            }
+                        };
                         match res {
                             Ok(Ok(_)) => r.count("progress.holder_revoke.ok"),
-                            Ok(Err(_)) => r.count("progress.holder_revoke.refused"),
+                            Ok(Err(e)) => {
+                                r.count("progress.holder_revoke.refused");
+                                r.set_add(&format!("holder_revoke_refusal_kinds{}", if via.is_some() { ".handler" } else { "" }), &norm_msg(&e));
+                            }
                             Err(pm) => {
                                 r.count("panic.holder_revoke");
                                 r.set_add("panic_kinds", &norm_msg(&pm));
@@ -1938,6 +2341,15 @@ fn run_world(ctx: &Ctx, rng: &mut Rng, r: &mut Report, extreme: bool) {
             Outcome::Refused(msg) => {
                 r.count(&format!("{}.refused", side.short()));
                 r.set_add(&format!("{}_refusal_kinds", side.short()), &norm_msg(&msg));
+                if via.is_some() {
+                    r.count(&format!("handler.{}.refused", side.short()));
+                    r.set_add(&format!("handler_{}_refusal_kinds", side.short()), &norm_msg(&msg));
+                    if !enabled_bad.is_empty() {
+                        r.count(&format!("handler.{}.bad_refused", side.short()));
+                    } else {
+                        r.count(&format!("handler.{}.refused.although_predicate_ok", side.short()));
+                    }
+                }
                 if enabled_bad.is_empty() {
                     r.count(&format!("{}.refused.although_predicate_ok", side.short()));
                 } else {
@@ -1967,6 +2379,9 @@ fn run_world(ctx: &Ctx, rng: &mut Rng, r: &mut Report, extreme: bool) {
             }
             Outcome::Panicked(pm) => {
                 r.count(&format!("{}.panic", side.short()));
+                if via.is_some() {
+                    r.count(&format!("handler.{}.panic", side.short()));
+                }
                 r.count(&format!("panic.profile.{}", ctx.cli.profile));
                 r.set_add("panic_kinds", &norm_msg(&pm));
                 match fee_mode {
@@ -2017,18 +2432,39 @@ fn main() {
     rep.require("clause.setup_safe_type.bad_requests", 20);
     rep.require("clause.setup_delay.bad_requests", 20);
     rep.require("worlds.with_filter", 20);
+    // the protocol-handler entry must have carried its share of all of this
+    rep.require("handler.SetupChannel.ok", 60);
+    rep.require("handler.SetupChannel.refused", 60);
+    rep.require("handler.SetupChannel.bad_requests", 60);
+    rep.require("handler.SignRemoteCommitmentTx2.ok", 100);
+    rep.require("handler.SignRemoteCommitmentTx2.refused", 100);
+    rep.require("handler.ValidateCommitmentTx2.ok", 100);
+    rep.require("handler.ValidateCommitmentTx2.refused", 100);
+    rep.require("handler.cp.accepted.with_htlcs", 15);
+    rep.require("handler.holder.accepted.with_htlcs", 15);
+    rep.require("handler.cp.accepted.new", 10);
+    rep.require("handler.holder.accepted.new", 10);
+    rep.require("handler.cp.bad_requests", 100);
+    rep.require("handler.holder.bad_requests", 100);
+    rep.require("handler.RevokeCommitmentTx.ok", 10);
+    rep.require("handler.ValidateRevocation.ok", 10);
+    rep.require("handler.htlc_with_msat_remainder", 50);
+    for v in 4..=6 {
+        rep.require(&format!("handler.requests.protocol_version_{}", v), 100);
+    }
 
     finish(
         rep,
         FinishSpec {
             cli: &cli,
             level: "exploration",
-            rule: "generated worlds (SimplePolicy bounds, optional PolicyFilter, simple/on-chain validator) x generated ChannelSetups x generated commitment contents around the bounds (b-1,b,b+1) and around the u32 / u64 overflow candidates of the fee-rate estimate, through Node::setup_channel, Channel::sign_counterparty_commitment_tx_phase2 and Channel::validate_holder_commitment_tx_phase2 (valid counterparty signatures), blocks fed through the real ChainTracker; oracle = reference predicate from docs/policy-controls.md + BOLT-3 weights in u128, Ok => allowed, clauses disabled exactly where the filter downgrades their tag. evaluations = requests judged (setups + commitments). distinct = (entry point, validator, commitment type, n class 0/new/retry, set of broken clauses, set of broken-but-downgraded clauses, HTLC count class, fee generator mode, outcome)",
+            rule: "generated worlds (SimplePolicy bounds, optional PolicyFilter, simple/on-chain validator) x generated ChannelSetups x generated commitment contents around the bounds (b-1,b,b+1) and around the u32 / u64 overflow candidates of the fee-rate estimate, through Node::setup_channel, Channel::sign_counterparty_commitment_tx_phase2 and Channel::validate_holder_commitment_tx_phase2 (valid counterparty signatures), a third of the channels instead through the protocol handler of vls-protocol-signer at protocol versions 4, 5 and 6 (NewChannel, SetupChannel with the channel type as feature bits, SignRemoteCommitmentTx2 and ValidateCommitmentTx2 with HTLC amounts in msat carrying sub-satoshi remainders and LOCAL/REMOTE sides, RevokeCommitmentTx, ValidateRevocation; the handler's answer judged by the same predicate), blocks fed through the real ChainTracker; oracle = reference predicate from docs/policy-controls.md + BOLT-3 weights in u128, Ok => allowed, clauses disabled exactly where the filter downgrades their tag. evaluations = requests judged (setups + commitments). distinct = (entry point, direct or protocol handler, validator, commitment type, n class 0/new/retry, set of broken clauses, set of broken-but-downgraded clauses, HTLC count class, fee generator mode, outcome)",
             assumptions: vec![
                 "BOLT-3 transaction construction (LDK chan_utils), secp256k1 and txoo proof construction are trusted and shared with the code under test".into(),
                 "slack: implied fee rate judged against [min-2, max+1] in exact arithmetic (anchors excluded for the upper, included for the lower bound); dust judged against the weakest plausible limit (330 P2WSH / 294 P2WPKH / 330 + feerate*663|703/1000 for non-zero-fee HTLCs); an exact off-by-one at a bound is therefore not detected".into(),
                 "the fee judged is channel_value_sat minus the sum of to_holder, to_counterparty and HTLC values of the request (the quantity the commitment actually leaves to miners and anchors); the declared feerate_per_kw of the request is only used for the HTLC trim limit (acceptances with a declared rate outside the policy range are counted as a statistic, not judged)".into(),
                 "on-chain clause: 'new' = commitment number above every number previously accepted on that side; funding unconfirmed = the funding transaction is in no block fed to the tracker; close seen = a spend of the funding outpoint is in a fed block (no reorgs in this workload)".into(),
+                "protocol-handler entry: a reply is an acceptance, an error reply a refusal; under protocol version 4 (validation and revocation in one message) an error reply that leaves a new pending holder commitment n in the signer is read as an accepted validation followed by a refused revocation, as the direct entry shows it; a holder commitment one ahead of the next (validated without being stored by the direct entry) is refused by the handler when it fetches the point for its reply, and a repeated commitment 0 by activate_initial_commitment under versions 5+: both counted, not judged; requests with an HTLC amount that does not fit the msat field are sent directly".into(),
                 "panics of the code under test (overflow-checking profile, expect() on outputs > channel value) are counted, the world is abandoned; they are not C05 violations".into(),
             ],
             start,
